@@ -575,4 +575,48 @@ theorem inv_reachable {P : Progs} (hP : P.wf = true) (s : State)
     (h : GB.LTS.Reachable (step P) init s) : Inv P s :=
   GB.LTS.invariant (step P) init (Inv P) (inv_init P) (fun _ _ _ hi hs => inv_step hP hi hs) s h
 
+
+/-! ### consequences -/
+
+/-- once Close has returned, nothing of that watcher is left and nothing can come back -/
+theorem Inv.noRes {P : Progs} {s : State} (h : Inv P s) {w : Wid} (hw : w ∈ s.closeRet) :
+    closedOf s w = true ∧ (∀ e ∈ s.mtab, e.owner ≠ w) ∧ (∀ e ∈ s.static, e.owner ≠ w) ∧
+    (∀ k e, s.routes k = some e → e.owner ≠ w) ∧
+    (∀ t th, s.threads t = some th → th.w = w → th.a.chk = false) := by
+  obtain ⟨t0, th0, h0, hw0, hc0, hcl0⟩ := h.cr w hw
+  have hclosed : closedOf s w = true := hw0 ▸ (h.th t0 th0 h0).cl hc0
+  simp only [A.cleaned, hc0, Bool.not_true, Bool.false_or] at hcl0
+  refine ⟨hclosed, ?_, ?_, ?_, ?_⟩
+  · intro e he hown
+    cases hsv : P.svc with
+    | true => rw [(h.kindP hsv).1] at he; cases he
+    | false =>
+      simp only [hsv, Bool.false_eq_true, if_false, Bool.and_eq_true] at hcl0
+      rcases h.mtab e he with x | ⟨t1, th1, h1, hw1, hc1, hp1⟩
+      · rw [hown, hclosed] at x; cases x
+      · have := h.clU t1 t0 th1 th0 h1 h0 hc1 hc0 (by rw [hw1, hown, hw0])
+        subst this; rw [h0] at h1; cases h1; simp [hcl0.1] at hp1
+  · intro e he hown
+    cases hsv : P.svc with
+    | true => rw [(h.kindP hsv).2] at he; cases he
+    | false =>
+      simp only [hsv, Bool.false_eq_true, if_false, Bool.and_eq_true] at hcl0
+      rcases h.static e he with x | ⟨t1, th1, h1, hw1, hc1, hp1⟩
+      · rw [hown, hclosed] at x; cases x
+      · have := h.clU t1 t0 th1 th0 h1 h0 hc1 hc0 (by rw [hw1, hown, hw0])
+        subst this; rw [h0] at h1; cases h1; simp [hcl0.2] at hp1
+  · intro k e he hown
+    cases hsv : P.svc with
+    | false => rw [h.kindS hsv k] at he; cases he
+    | true =>
+      simp only [hsv, if_true] at hcl0
+      rcases h.routes k e he with x | ⟨t1, th1, h1, hw1, hc1, hp1⟩
+      · rw [hown, hclosed] at x; cases x
+      · have := h.clU t1 t0 th1 th0 h1 h0 hc1 hc0 (by rw [hw1, hown, hw0])
+        subst this; rw [h0] at h1; cases h1; simp [hcl0] at hp1
+  · intro t th ht hwt
+    cases hx : th.a.chk with
+    | false => rfl
+    | true => have := ((h.th t th ht).chk hx).2; rw [hwt, hclosed] at this; cases this
+
 end GB.C11
